@@ -229,6 +229,29 @@ class Ctx:
         return results
 
 
+class Sequence:
+    """Case function for {"seq": [case, case, ...]}: runs the wrapped case function on every member IN ONE PROCESS, in
+    order (wrap in Isolated so that process is a fresh fork).  Each member is judged by the check's own absolute oracle,
+    so state carried from an earlier object into a later one (module-level memo, class attribute, shared default) shows
+    up as a violation of the later member; keys carry the history that preceded it."""
+
+    def __init__(self, func, label):
+        self.func, self.label = func, label
+
+    def __call__(self, case):
+        out, hist = [], []
+        for member in case["seq"]:
+            r = self.func(member)
+            for v in r["violations"]:
+                v = dict(v)
+                if hist:
+                    v["key"] = v["key"] + "|after=" + ">".join(hist)
+                v["case"] = case
+                out.append(v)
+            hist.append(self.label(member))
+        return {"violations": out, "members": len(case["seq"])}
+
+
 def collect_samples(items, k=4):
     items = list(items)
     if len(items) <= k:
